@@ -10,11 +10,12 @@ PID = "C07"
 LEAN_MODULE = "NiVerif.Props.C07"
 NAMESPACE = "Props.C07"
 DRIVER = "drivers/Wfm.lean"
-GEN_MODULES = ["Atomic"]
-EXTRA_LEAN_MODULES = ["NiVerif.Model.WfmProto", "NiVerif.Model.Atomic"]
+GEN_MODULES = ["Atomic", "Args"]
+EXTRA_LEAN_MODULES = ["NiVerif.Model.WfmProto", "NiVerif.Model.Atomic", "NiVerif.Props.Args"]
 THEOREMS = ["failed_step_frame", "rejected_calls_are_noops", "unresizable_capacity", "unresizable_append_rejected",
             "unresizable_append_waveforms_rejected", "rejection_classes",
-            "numeric_atomic", "digital_atomic", "spectrum_atomic", "criterion_rejects_old_orders"]
+            "numeric_atomic", "digital_atomic", "spectrum_atomic", "criterion_rejects_old_orders",
+            "Props.Args.gen_arg_to_int_spec", "Props.Args.gen_arg_to_int_plain", "Props.Args.gen_arg_to_uint_eq_prelude", "Props.Args.gen_arg_to_uint_plain", "Props.Args.gen_arg_to_uint_kind_independent"]
 RULE = ("seeded histories on the four waveform classes with the malformed stream turned up (wrong dtype, dimension, "
         "signal count, timestamp count, incompatible / non-monotonic timing, out-of-range sizes and indices, unresizable "
         "borrowed buffers, wrong argument types) at every reachable state; around every rejected call the full observable "
@@ -198,6 +199,9 @@ def borrowed_and_name_cases(ctx):
 
 def run(ctx):
     world = H.World(ctx.rng)
+    # the kinds of object accepted where an integer is (tier T12: Gen/Args.lean, Props/Args.lean) against the real converters
+    from props import args_harness
+    ctx.extra["int_arg_cases"] = args_harness.int_arg_cases(ctx)
     n_hist = 1200 if ctx.quick else 6000
     w = {"appa": 4, "appw": 4, "load": 4, "setcount": 3, "setcap": 3, "settiming": 3, "write": 2, "get": 1, "pickle": 0, "bad": 5}
     for i in range(n_hist):
